@@ -228,6 +228,9 @@ func (p *Prog) ResolveType(text string, f *spec.File, S *Sorts) (types.Type, str
 		return types.Typ[types.Int], "Int", nil
 	case "Str":
 		return types.Typ[types.String], "Str", nil
+	case "StrArr":
+		// the contents of a []string's backing array (see the builtins elems / off)
+		return nil, "(Array Int Str)", nil
 	}
 	if strings.HasPrefix(text, "func(") {
 		// function values are opaque in specs
